@@ -7,6 +7,8 @@ disparity lies in the global interval whatever followed, in its own interval rig
 disparity_interval is the interval searched."""
 from __future__ import annotations
 
+import copy
+
 import numpy as np
 from hypothesis import strategies as st
 
@@ -48,13 +50,28 @@ def nested_cases(draw):
     A, B = gen.clamp_interval([A, A + draw(st.integers(1, 7))], pair["W"], pipe)
     a = draw(st.integers(A, B))
     b = draw(st.integers(a, B))
-    return {"pair": pair, "pipeline": pipe, "big": [A, B], "small": [a, b]}
+    # with a validation step the machine builds the right image's volume as well (two volumes per matching-cost object)
+    return {"pair": pair, "pipeline": pipe, "big": [A, B], "small": [a, b], "with_right": draw(st.integers(0, 2)) == 0}
 
 
 def nested_body(ctx: Ctx, p: dict) -> None:
     kw = gen.pair_kwargs(p["pair"])
-    big = drive.run_pipeline(pipeline=gen.pipe_dict(p["pipeline"]), disp=tuple(p["big"]), **kw).machine.left_cv
-    small = drive.run_pipeline(pipeline=gen.pipe_dict(p["pipeline"]), disp=tuple(p["small"]), **kw).machine.left_cv
+    full = gen.pipe_dict(p["pipeline"])
+    if p.get("with_right"):
+        full.update(disparity={"disparity_method": "wta"}, validation={"validation_method": "cross_checking_accurate"})
+    mb = drive.run_pipeline(pipeline=copy.deepcopy(full), disp=tuple(p["big"]), **kw).machine
+    ms = drive.run_pipeline(pipeline=copy.deepcopy(full), disp=tuple(p["small"]), **kw).machine
+    for side, big, small in [("left", mb.left_cv, ms.left_cv)] + ([("right", mb.right_cv, ms.right_cv)] if p.get("with_right") else []):
+        _nested(ctx, p, side, big, small)
+    sm_size = int(ms.left_cv["cost_volume"].data.size)
+    shared = len(ms.left_cv.coords["disp"].data)
+    ctx.judged += sm_size
+    ctx.case(p, nontrivial=bool(p["small"][1] - p["small"][0] >= 1 and (p["big"][1] - p["big"][0]) - (p["small"][1] - p["small"][0]) >= 2),
+             classes=[p["pipeline"][-1][0], p["pipeline"][0][1]["matching_cost_method"]] + (["shared>=2"] if shared >= 2 else []) +
+             (["right-volume"] if p.get("with_right") else []))
+
+
+def _nested(ctx: Ctx, p: dict, side: str, big, small) -> None:
     ax_b = [float(x) for x in big.coords["disp"].data]
     ax_s = [float(x) for x in small.coords["disp"].data]
     if any(d not in ax_b for d in ax_s):
@@ -68,12 +85,8 @@ def nested_body(ctx: Ctx, p: dict) -> None:
         r, c, k = np.argwhere(bad)[0]
         step = p["pipeline"][-1][0]
         ctx.violation(f"C09/cost-depends-on-requested-interval/{step}",
-                      f"cell {(int(r), int(c))} d={ax_s[k]}: {sm[r, c, k]} with {p['small']} but {sl[r, c, k]} with {p['big']} "
+                      f"{side} cell {(int(r), int(c))} d={ax_s[k]}: {sm[r, c, k]} with {p['small']} but {sl[r, c, k]} with {p['big']} "
                       f"({int(bad.sum())} cells) cfg={p['pipeline']}")
-    shared = len(ax_s)
-    ctx.judged += int(sm.size)
-    ctx.case(p, nontrivial=bool(p["small"][1] - p["small"][0] >= 1 and (p["big"][1] - p["big"][0]) - (p["small"][1] - p["small"][0]) >= 2),
-             classes=[p["pipeline"][-1][0], p["pipeline"][0][1]["matching_cost_method"]] + (["shared>=2"] if shared >= 2 else []))
 
 
 @st.composite
